@@ -223,7 +223,7 @@ func (c *Ctx) freshShape(hint string, t types.Type, lift []string, top bool) Val
 		ks := keySort(mt.Key())
 		has := c.fresh(hint+".has", liftSort(arrSort(ks, SBool), lift))
 		val := c.freshShape(hint+".val", mt.Elem(), append(append([]string{}, lift...), ks), false)
-		return Mp{has, val, c.fresh(hint+".cnt", liftSort(SInt, lift)), mt.Key(), mt.Elem(), ks}
+		return Mp{has, val, c.fresh(hint+".cnt", liftSort(SInt, lift)), mt.Key(), mt.Elem(), ks, c.fresh(hint+".mnil", liftSort(SBool, lift))}
 	case kObj:
 		if len(lift) > 0 {
 			panic(unsupported("external object type " + name + " inside a container"))
@@ -303,7 +303,23 @@ func (c *Ctx) typeInvs(v Val, t types.Type, depth int) []string {
 		out = append(out, c.typeInvs(p.Elem, p.T, depth)...)
 	case kMap:
 		m := v.(Mp)
-		out = append(out, tGe(m.Len, "0"))
+		out = append(out, tGe(m.Len, "0"), tImp(m.Nil, tEq(m.Len, "0")))
+		{
+			kv := fmt.Sprintf("tk!n%d", depth)
+			out = append(out, tImp(m.Nil, tForall([][2]string{{kv, m.KS}}, tNot(tSel(m.Has, kv)))))
+		}
+		if at, ok := m.K.Underlying().(*types.Array); ok && at.Len() <= 3 {
+			// keys of array type: only encodings of byte tuples are present
+			kn := fmt.Sprintf("key!%d", at.Len())
+			kv := fmt.Sprintf("tk!a%d", depth)
+			var comps, rng []string
+			for i := int64(0); i < at.Len(); i++ {
+				comp := app(fmt.Sprintf("%s.%d", kn, i), kv)
+				comps = append(comps, comp)
+				rng = append(rng, tAnd(tLe("0", comp), tLe(comp, "255")))
+			}
+			out = append(out, tForall([][2]string{{kv, SInt}}, tImp(tSel(m.Has, kv), tAnd(tEq(kv, app(kn, comps...)), tAnd(rng...))), tSel(m.Has, kv)))
+		}
 		n := fmt.Sprintf("tk!%d", depth)
 		sub := c.typeInvs(vSelect(m.Val, n), m.V, depth+1)
 		for _, inv := range sub {
@@ -355,7 +371,7 @@ func (c *Ctx) zeroVal(t types.Type, lift []string) Val {
 		mt := t.Underlying().(*types.Map)
 		ks := keySort(mt.Key())
 		return Mp{zeroOf(liftSort(arrSort(ks, SBool), lift)), c.zeroVal(mt.Elem(), append(append([]string{}, lift...), ks)),
-			zeroOf(liftSort(SInt, lift)), mt.Key(), mt.Elem(), ks}
+			zeroOf(liftSort(SInt, lift)), mt.Key(), mt.Elem(), ks, liftTrue(lift)}
 	case kObj:
 		if len(lift) > 0 {
 			panic(unsupported("external object type " + name + " inside a container"))
